@@ -23,10 +23,11 @@ PROP = dict(
               "smooth.step: T{-30,-10} x R{2,5,50} x W{0,10} x fs{8k,192k} x attack,release in {0,1e-3,0.01,0.2,4}^2 (no 4 s at 192 kHz), "
               "4 step phases each; smooth.silence: T{-30,-10} x R{2,5,50}/limiter x W{0,10} x fs{8k,192k} x attack{0,0.01} x release{1e-3,0.01,0.2} x "
               "k{1,5,50} release times of exact zeros x {1 call, 3 calls}; gate.silence: thr{-40,0} x fs{8k,192k} x attack{1e-3,0.05} x release{0,1e-3} x hold{0,1e-3,0.05} x k{1,5,50} x {1,3 calls}; gate: thr{-140,-40,0} x fs{8k,192k} x attack,release,hold in {0,1e-3,0.05}^3, step history + 7 letters of 10^4; "
-              "Agc: target{0.01,1,100} x level -60..+20 dB step 10 x avg{1,10,100,1000} x max_gain{20,60} x 3 constant-envelope letters (real +A, real +-A, "
+              "Agc: target{0.01,1,100} x absolute input amplitude -100..+20 dBFS (1e-5..10) step 10 dB x avg{1,10,100,1000} x max_gain{20,60,140} (140 dB keeps the required "
+              "gain below max_gain for every target x amplitude pair) x 3 constant-envelope letters (real +A, real +-A, "
               "complex A e^{j0.7k}), 20000 samples; gain bound: target x avg{1,2,3,7,10,100,1000} x max_gain x {silence, burst, level blocks, modulated bursts + silence}",
         thorough="as quick with R{1,2,3,5,10,50}, fs{8k,44.1k,192k}, letters of 10^5 samples, smooth.step including 4 s at 192 kHz, "
-                 "Agc additionally with (t_rise,t_fall) = (0.1,0.002)"),
+                 "Agc amplitudes in 5 dB steps and additionally with (t_rise,t_fall) = (0.1,0.002)"),
     deadline=dict(quick=150, thorough=1500),
     assumptions=COMMON_ASSUME + [
         "ratio is an int in the API; integer ratios are enumerated",
